@@ -51,4 +51,11 @@ def foldUnInt (neg : Bool) (t : Ty) (a : Int) : FoldRes :=
 /-- push <t> a ; conv<t><d>  ⇒  push <d> a   (integral to integral), only when the value fits -/
 def phConvInt (d : Ty) (a : Int) : Option Int := if inRange d a then some a else none
 
+/-- the folder's conversion of a float operand to the integral operand type of \\, MOD, AND, OR, XOR, EQV, IMP
+    (`operand_type.coerce` = round half to even, then `can_hold`); none = OverflowError, the expression is kept -/
+def foldOperandFromFloat {F} (ops : FOps F) (t : Ty) (x : F) : Option Int :=
+  match ops.roundEven x with
+  | none => none
+  | some n => if inRange t n then some n else none
+
 end Qbee.Fold
